@@ -267,6 +267,11 @@ func runC14Closures(c C14Case) (st Stats, err error) {
 						v = violf("Condition.IsEqual/closure", "%s: IsEqual gave %v / %v, closure returns %v", where, e1, e2, cl.err)
 						return
 					}
+					before := cl.calls
+					if e3 := cd.IsEqual(cd); e3 != cl.err || cl.calls != before+1 {
+						v = violf("Condition.IsEqual/closure/self", "%s: IsEqual(self)=%v with %d consultations; closure returns %v", where, e3, cl.calls-before, cl.err)
+						return
+					}
 				} else if e1 != nil || e2 == nil {
 					v = violf("Condition.IsEqual/builtin", "%s: IsEqual(twin)=%v IsEqual(other)=%v without closure", where, e1, e2)
 					return
@@ -430,6 +435,13 @@ func runC14Closures(c C14Case) (st Stats, err error) {
 			if cl := installed["equality"]; cl != nil {
 				if (cl.fail && (e1 != cl.err || e2 != cl.err)) || (!cl.fail && (e1 != nil || e2 != nil)) {
 					v = violf("Stack.IsEqual/closure", "%s: IsEqual gave %v / %v, closure returns %v", where, e1, e2, cl.err)
+					return
+				}
+				// the closure decides for every Stack argument, the receiver itself included
+				before := cl.calls
+				e3, e4 := s.IsEqual(s), s.IsEqual(MyStack(s))
+				if e3 != cl.err || e4 != cl.err || cl.calls != before+2 {
+					v = violf("Stack.IsEqual/closure/self", "%s: IsEqual(self)=%v IsEqual(alias of self)=%v with %d consultations; closure returns %v", where, e3, e4, cl.calls-before, cl.err)
 					return
 				}
 			} else if e1 != nil || e2 == nil {
